@@ -308,7 +308,21 @@ where
                         if v != last[i].0 {
                             last[i] = (v, std::time::Instant::now());
                         } else if last[i].1.elapsed().as_secs() > limit {
-                            let input = CURRENT_INPUT.lock().ok().and_then(|v| v.get(i).cloned().flatten());
+                            // several shards are usually stuck by now (each on its own input): take the smallest input
+                            // among those that have been silent for more than half the limit
+                            let input = CURRENT_INPUT.lock().ok().and_then(|v| {
+                                let mut stuck: Vec<String> = beats
+                                    .iter()
+                                    .enumerate()
+                                    .filter(|(k, b)| {
+                                        let cur = b.load(Ordering::Relaxed);
+                                        cur != u64::MAX && cur == last[*k].0 && last[*k].1.elapsed().as_secs() * 2 > limit
+                                    })
+                                    .filter_map(|(k, _)| v.get(k).cloned().flatten())
+                                    .collect();
+                                stuck.sort_by_key(|t| t.len());
+                                stuck.into_iter().next().or_else(|| v.get(i).cloned().flatten())
+                            });
                             let mut kept = String::new();
                             if let Some(t) = &input {
                                 let dir = root.join("replays").join(&prop_name);
